@@ -261,16 +261,49 @@ def rule_work(chk, rid, runs, skip_classes=(), hold=True):
 
 
 # ------------------------------------------------------------------ capacity / units
-def declared_capacity(repo, run_):
-    """sum of the unit attributes (attributes named after unit parameters) as Lin, or None"""
-    rel, c, f = repo.resolve_method(run_.cname, "__init__")
+def param_attrs(repo, cname):
+    """constructor parameter -> the attribute of self that holds it (from the stores of the constructor chain:
+    `self.X = p`, or `self.X = min(p, ...)` / another expression in which p is the only unit parameter) - the
+    attribute's name does not matter"""
+    out = {}
+    try:
+        rel, c, f = repo.resolve_method(cname, "__init__")
+    except AnchorMissing:
+        return out
     params = {a.arg for a in f.args.args} | {a.arg for a in f.args.kwonlyargs}
-    attrs = []
-    for n in ast.walk(f):
-        if isinstance(n, ast.Attribute) and isinstance(n.ctx, ast.Store) and isinstance(n.value, ast.Name) \
-                and n.value.id == "self" and n.attr.lstrip("_") in UNIT_PARAMS and n.attr.lstrip("_") in params:
-            attrs.append("self." + n.attr)
-    attrs = sorted(set(attrs))
+    # locals of the constructor that stand for a parameter (p = min(p, ...), q = p)
+    for _, cc in repo.mro(cname):
+        for g in cc.body:
+            if not (isinstance(g, ast.FunctionDef) and g.name == "__init__"):
+                continue
+            gparams = {a.arg for a in g.args.args} | {a.arg for a in g.args.kwonlyargs}
+            for a in ast.walk(g):
+                if not isinstance(a, ast.Assign):
+                    continue
+                names = {x.id for x in ast.walk(a.value) if isinstance(x, ast.Name)} & gparams
+                units = names & set(UNIT_PARAMS)
+                src = next(iter(units)) if len(units) == 1 else (next(iter(names)) if len(names) == 1 else None)
+                # the number of positions labelled RAM / DISK is the RAM / DISK budget the schedule works with
+                v = a.value
+                if isinstance(v, ast.Call) and isinstance(v.func, ast.Attribute) and v.func.attr == "count" and len(v.args) == 1 \
+                        and isinstance(v.args[0], ast.Attribute) and isinstance(v.args[0].value, ast.Name) \
+                        and v.args[0].value.id == "StorageType":
+                    src = {"RAM": "snapshots_in_ram", "DISK": "snapshots_on_disk"}.get(v.args[0].attr)
+                    if src not in gparams:
+                        src = None
+                if src is None or src not in params:
+                    continue
+                for t in a.targets:
+                    if isinstance(t, ast.Attribute) and isinstance(t.value, ast.Name) and t.value.id == "self":
+                        out.setdefault(src, "self." + t.attr)
+    return out
+
+
+def declared_capacity(repo, run_):
+    """sum of the attributes that hold the unit parameters of the constructor, as Lin, or None"""
+    rel, c, f = repo.resolve_method(run_.cname, "__init__")
+    pa = param_attrs(repo, run_.cname)
+    attrs = sorted({a for p_, a in pa.items() if p_ in UNIT_PARAMS})
     if not attrs:
         return None, attrs
     cap = Lin.const(0)
@@ -591,8 +624,10 @@ def rule_declared(chk, rid, ctx, classes=None):
             rel2, c2, f2, it = ctx.model.init_run(cname, exact=True)
         except Unsupported:
             continue
+        pa = param_attrs(repo, cname)
         for p in units:
-            attr = Lin.sym("self._" + p)
+            aname = pa.get(p, "self._" + p)
+            attr = Lin.sym(aname)
             par = Lin.sym(p)
             cons = f"{rel[:-3]}.{cname}.__init__#declared-{p}"
             verdicts = []
@@ -600,11 +635,15 @@ def rule_declared(chk, rid, ctx, classes=None):
                 if o.kind not in ("end", "return"):
                     continue
                 st = o.state
-                if ("self._" + p) not in st.symbols() and st.enum_get("self._" + p) is None:
-                    verdicts.append((None, "the attribute is not a tracked integer"))
+                if aname not in st.symbols() and st.enum_get(aname) is None:
+                    continue        # not an integer the constructor analysis follows (e.g. a count of labels): no statement
+                if st.enum_is(aname, "None") == "yes" or st.enum_is(p, "None") == "yes":
                     continue
-                if st.enum_is("self._" + p, "None") == "yes" or st.enum_is(p, "None") == "yes":
-                    continue
+                red = st.reduce(attr)
+                free = set(red.t) == {aname} and not any(aname in i.t for i in st.ineq)
+                if free or any(k.startswith("@") and k not in getattr(it, "minmax", {}) for k in red.t):
+                    continue        # the stored value comes from a computation the constructor analysis has no model of
+                                    # (a count of labels): its bound is the business of SLICE / BOUND
                 if st.entails_ineq(par - attr):
                     verdicts.append((True, "stored <= declared"))
                     continue
@@ -615,13 +654,13 @@ def rule_declared(chk, rid, ctx, classes=None):
                 else:
                     w = s2.reduce(attr - par)
                     verdicts.append((False, f"an accepted argument region stores more units than declared "
-                                            f"(self._{p} - {p} = {w} >= 1 is feasible there, e.g. for the smallest accepted {p})"))
+                                            f"({aname} - {p} = {w} >= 1 is feasible there, e.g. for the smallest accepted {p})"))
             if not verdicts:
                 continue
             if any(v[0] is False for v in verdicts) and not getattr(it, "fuzzy", None):
                 bad = next(v for v in verdicts if v[0] is False)
                 chk.decide(rid, cons, False, f"{cname}: " + bad[1], rel=rel, node=f)
             elif all(v[0] is True for v in verdicts):
-                chk.decide(rid, cons, True, f"{cname}: self._{p} <= {p} in all {len(verdicts)} constructor outcomes", rel=rel, node=f)
+                chk.decide(rid, cons, True, f"{cname}: {aname} <= {p} in all {len(verdicts)} constructor outcomes", rel=rel, node=f)
             else:
                 chk.decide(rid, cons, None, f"{cname}: " + next(v[1] for v in verdicts if v[0] is not True), rel=rel, node=f)
